@@ -54,7 +54,7 @@ def _small(val: Optional[str]):
     elif FLD == 3:
         r.add_extras("p:x", val if val is not None else "")
     elif FLD == 4:
-        kid(r, "c2", {"p": "urn:u", "q": val if val else "urn:q"}, "q")
+        kid(r, "c2", {"p": "urn:u", "q": val if val is not None else "urn:q"}, "q")
     elif FLD == 5:
         c2 = kid(r, "c2")
         kid(c2, "g").content = val
@@ -75,7 +75,8 @@ def _small(val: Optional[str]):
         kid(r, "c1").content = "C1"
         kid(r, "e").tail = val
     elif FLD == 11:
-        c3 = kid(r, "c3", {"p": val if val else "urn:u"}, "p")      # re-binding of the inherited prefix
+        r.nsmap = {"p": "u"}            # short URI: comparing a symbolic string with a longer literal trips a CrossHair internal error
+        c3 = kid(r, "c3", {"p": val if val is not None else "u"}, "p")          # re-binding of the inherited prefix
         kid(c3, "h").prefix = "p"
     return r
 
@@ -120,7 +121,7 @@ def _tree(val: Optional[str]):
     elif FLD == 3:
         r.add_extras("p:x", val if val is not None else "")
     elif FLD == 4:
-        sub["q"] = val if val else "urn:q"
+        sub["q"] = val if val is not None else "urn:q"
     elif FLD == 5:
         g.content = val
     elif FLD == 6:
